@@ -325,6 +325,9 @@ class XMLResourceLoader:
                     end_ns = True
                 elif event == 'end':
                     remaining_levels += 1
+                    if end_ns:
+                        nsmap_stack.pop()
+                        end_ns = False
         except (SyntaxError, LookupError, ValueError) as err:
             raise XMLResourceParseError("invalid XML syntax: {}".format(err)) from err
 
